@@ -95,7 +95,6 @@ func MergeClearSign(w io.Writer, sig []byte, message io.Reader) error {
 	}}
 
 	out := bufio.NewWriter(w)
-	defer out.Flush()
 	readPipe, writePipe := io.Pipe()
 	done := make(chan error)
 	go func() {
@@ -108,8 +107,11 @@ func MergeClearSign(w io.Writer, sig []byte, message io.Reader) error {
 		return err
 	}
 
-	_, err = out.Write(sig)
-	return err
+	if _, err = out.Write(sig); err != nil {
+		return err
+	}
+	// a short output reaches w only here, so the error must not be dropped
+	return out.Flush()
 }
 
 // Copy bytes, stopping before the signature block at the end
